@@ -122,6 +122,8 @@ func c08LeaverAlphabet(w *world) []cev {
 		own := s.Incarnation
 		if own < 3 {
 			out = append(out, cev{K: "suspect", Node: "o", Inc: own, From: "t", Carrier: "pkt"})
+			// a restarted node that peers remember several incarnations ahead: the refutation skips ahead
+			out = append(out, cev{K: "suspect", Node: "o", Inc: own + 3, From: "t", Carrier: "pkt"})
 			out = append(out, cev{K: "update", Meta: "om1"})
 		}
 		out = append(out, cev{K: "dead", Node: "p1", Inc: 1, From: "t", Carrier: "pkt"}, cev{K: "dead", Node: "p2", Inc: 1, From: "p2", Carrier: "pkt"})
